@@ -269,5 +269,6 @@ func NatsSubs() []any              { return nil }
 func NatsUnsubscribed(sub any) int { return 0 }
 func NatsFailPublish(fail bool)    {}
 func NatsFailUnsubscribe(fail bool) {}
+func NatsSetClosed(closed bool)     {}
 func ArmedTimers() int             { return 0 }
 func FireTimer(k int) bool         { return false }
